@@ -274,6 +274,33 @@ def _one_round(prop, tier, hseed, n_examples, triggers, acc, holder, phases, shr
     return None
 
 
+_BIG = None
+
+
+def _big_frame():
+    """CPython 3.11+ keeps Python frames in 'data stack chunks' that are mmap()ed when the call depth crosses a chunk
+    boundary and munmap()ed when it drops back. Hypothesis' deeply recursive draws oscillate around such a boundary in
+    pool workers, which costs a 3-4x slow-down in pure mmap/munmap churn (measured: 102k mmap calls for 240 examples).
+    A first frame with ~66k (unused) local variables makes the interpreter allocate one 1 MiB chunk whose slack
+    (~490 KiB) then holds every frame of the case. Pure performance device; no effect on results."""
+    global _BIG
+    if _BIG is None:
+        n = 66036
+        src = "def big(fn, arg):\n    if fn is None:\n" + "".join("        v%d = None\n" % i for i in range(n)) + "    return fn(arg)\n"
+        ns = {}
+        exec(compile(src, '<bigframe>', 'exec'), ns)
+        _BIG = ns['big']
+    return _BIG
+
+
+def _shard_entry(args):
+    return _big_frame()(_run_shard, args)
+
+
+def _enum_entry(args):
+    return _big_frame()(_run_enum_chunk, args)
+
+
 def _freeze_heap():
     """Every case drops a few dozen cyclic components; without this the collector re-scans the whole inherited heap
     (hypothesis, circuits, the strategy objects) at every generation-2 collection of a forked worker."""
@@ -455,6 +482,7 @@ def main(modname, argv):
                 triggers.append(f['trigger'])
 
     ctx = multiprocessing.get_context('fork')
+    _big_frame()   # compile once, before the workers are forked
     replay_failed = bool(violations)  # a committed regression input fails: report at once, skip the search
 
     # ---- enumerated finite sub-domain
@@ -471,7 +499,7 @@ def main(modname, argv):
         nproc = min(prop.enum_procs, max(1, len(specs) // 8))
         chunks = [specs[i::nproc] for i in range(nproc)]
         with ctx.Pool(nproc) as pool:
-            outs = pool.map(_run_enum_chunk, [(modname, c) for c in chunks])
+            outs = pool.map(_enum_entry, [(modname, c) for c in chunks])
         for o in outs:
             if o[0] == 'harness':
                 print('harness error in enumeration:\n' + o[1])
@@ -490,11 +518,11 @@ def main(modname, argv):
     if n_examples > 0 and not replay_failed:
         jobs = [(modname, tier, seed, sh, n_examples, tuple(triggers)) for sh in range(shards)]
         if shards == 1:
-            outs = [_run_shard(jobs[0])]
+            outs = [_shard_entry(jobs[0])]
         else:
             with ctx.Pool(min(shards, 16)) as pool:
                 try:
-                    outs = pool.map_async(_run_shard, jobs).get(prop.wall_cap[tier])
+                    outs = pool.map_async(_shard_entry, jobs).get(prop.wall_cap[tier])
                 except multiprocessing.TimeoutError:
                     pool.terminate()
                     print('inconclusive: a shard did not finish within %d s (hang in the code under test or overloaded machine)' % prop.wall_cap[tier])
